@@ -88,7 +88,8 @@ def h_mask(B, n=4, p=3, cols=(), rows=(), k=2, flags=None, layout="2d", rot=None
             B.eq("transform(masked X) on remaining samples == scores", tA, sA.isel(time=keepr))
 
 
-def h_isolated(B, n=4, p=3, cells=((1, 1),), when="fit", base_cols=()):
+def h_isolated(B, n=4, p=3, cells=((1, 1),), when="fit", base_cols=(), flags=None):
+    flags = dict(flags or {})
     X = da2d(B, "x", n, p)
     mask = np.zeros((n, p), dtype=bool)
     for (i, j) in cells:
@@ -99,13 +100,14 @@ def h_isolated(B, n=4, p=3, cells=((1, 1),), when="fit", base_cols=()):
     Xfit = X.where(~xr.DataArray(base, dims=X.dims, coords=X.coords))
     B.covers("Sanitizer.transform (isolated NaN check)")
     if when == "fit":
-        B.raises("fit on data with isolated NaN raises", lambda: M.single("EOF", n_modes=2, solver="full").fit(Xbad, "time"))
+        B.raises("fit on data with isolated NaN raises", lambda: M.single("EOF", n_modes=2, solver="full", **flags).fit(Xbad, "time"))
     else:
-        m = M.single("EOF", n_modes=2, solver="full").fit(Xfit, "time")
+        m = M.single("EOF", n_modes=2, solver="full", **flags).fit(Xfit, "time")
         B.raises("transform of data with isolated NaN raises", lambda: m.transform(Xbad))
 
 
-def h_transform_mismatch(B, n=4, p=3, fit_cols=(0,), new_cols=(1,)):
+def h_transform_mismatch(B, n=4, p=3, fit_cols=(0,), new_cols=(1,), flags=None):
+    flags = dict(flags or {})
     X = da2d(B, "x", n, p)
     Xn = da2d(B, "xn", 2, p, scoords=[100, 101])
 
@@ -114,10 +116,16 @@ def h_transform_mismatch(B, n=4, p=3, fit_cols=(0,), new_cols=(1,)):
         m[:, list(cols)] = True
         return D.where(~xr.DataArray(m, dims=D.dims, coords=D.coords))
 
-    m = M.single("EOF", n_modes=2, solver="full").fit(masked(X, fit_cols), "time")
+    m = M.single("EOF", n_modes=2, solver="full", **flags).fit(masked(X, fit_cols), "time")
     B.covers("Sanitizer.transform (mask comparison with fit)")
     if tuple(fit_cols) != tuple(new_cols):
-        B.raises("transform with different missing features raises", lambda: m.transform(masked(Xn, new_cols)))
+        refused = B.raises("transform with different missing features raises", lambda: m.transform(masked(Xn, new_cols)))
+        # a refusal must not change what the model accepts afterwards
+        if refused:
+            B.raises("the same call again is refused again", lambda: m.transform(masked(Xn, new_cols)))
+        tok = B.completes("data with the training mask is still accepted after a refused call", lambda: m.transform(masked(Xn, fit_cols)))
+        if tok is not None:
+            B.check("no NaN in the scores (after a refused call)", not _nanmask(tok).any(), "NaN in transform result")
     else:
         t = B.completes("transform with the same missing features runs", lambda: m.transform(masked(Xn, new_cols)))
         if t is not None:
@@ -204,6 +212,11 @@ def configs(tier):
     add("h_isolated", "isolated|fit|all but one cell of a column", cells=((0, 1), (1, 1), (2, 1)), when="fit")
     for fc, nc in (((0,), (1,)), ((0,), ()), ((), (2,)), ((1,), (1,)), ((), ())):
         add("h_transform_mismatch", f"transform mask|fit={list(fc)}|new={list(nc)}", fit_cols=fc, new_cols=nc)
+    # the same with centring off: the Scaler then no longer injects / hides NaNs before the Sanitizer sees the data
+    for fc, nc in (((0,), (1,)), ((0,), ()), ((), (2,)), ((1,), (1,))):
+        add("h_transform_mismatch", f"transform mask|center=False|fit={list(fc)}|new={list(nc)}", fit_cols=fc, new_cols=nc, flags={"center": False})
+    add("h_isolated", "isolated|fit|center=False|cell=[1, 1]", cells=((1, 1),), when="fit", flags={"center": False})
+    add("h_isolated", "isolated|transform|center=False|moving gap (no complete sample)", cells=((0, 0), (1, 1), (2, 2), (3, 0)), when="transform", flags={"center": False})
     for rx, ry in (((0,), ()), ((), (4,)), ((1,), (1,)), ((0,), (3,)), ((0, 2), (0, 2))):
         add("h_cross", f"MCA|nan rows X={list(rx)} Y={list(ry)}", rows_x=rx, rows_y=ry, cls="MCA")
     add("h_cross", "CPCCA|alpha=0.5|nan rows X=[0] Y=[3]", rows_x=(0,), rows_y=(3,), cls="CPCCA", alpha=0.5)
